@@ -90,7 +90,7 @@ prop("C05", module="MW.Props.C05", title="pro-rata, at-most-once withdrawal",
 prop("C06", module="MW.Props.C06", title="batch lifecycle and timing",
      variants=["submit_batch", "receive_unstaked_tokens", "liquid_unstake", "instantiate"],
      state_keys=["batches", "pending"],
-     weights={"submit": 22, "deliver": 16, "advance": 22, "unstake": 14, "stake": 10, "update_config": 5},
+     weights={"submit": 22, "deliver": 16, "advance": 22, "unstake": 14, "stake": 10, "update_config": 5, "resume": 5, "breaker": 2},
      profile={"reroute": 0.5},
      assumptions=["block time is whole nanoseconds; deadlines compare whole seconds (env.block.time.seconds())"])
 
@@ -154,7 +154,7 @@ prop("C02", module="MW.Props.C02", title="solvency of the contract-held staked a
 prop("C03", module="MW.Props.C03", title="LST supply integrity and exact delivery", builds=["osmosis", "miniwasm"],
      variants=["liquid_stake", "liquid_unstake", "submit_batch", "recover_pending_ibc_transfers", "reply", "sudo", "resume_contract"],
      state_keys=["state", "batches", "pending", "ibc_queue"],
-     weights={"stake": 30, "unstake": 14, "submit": 12, "ack": 10, "timeout": 5, "recover": 6},
+     weights={"stake": 30, "unstake": 14, "submit": 12, "ack": 10, "timeout": 8, "recover": 14},
      profile={"equal_prefixes": None}, quick_histories=80,
      assumptions=[LEDGER_NOTE])
 
